@@ -402,6 +402,7 @@ func checkC19(w *World, r *Report) {
 	checkMeasureByShape(w, r)
 	checkNoBoxedNumberComparisons(w, r)
 	checkFilterChainsRunToTheEnd(w, r, "R19.7")
+	checkDataNumbersAreDecimal(w, r)
 	// R19.3: the emptiness routine behind `default` (and the empty test)
 	nz := checkZeroTests(w, r, "R19.3", func(f *types.Func) bool { return f.Name() == "isEmptyValue" }, "treated as non-empty: `default` does not replace it although it replaces int 0")
 	r.Counts["zero tests in the emptiness routine"] = nz
@@ -959,4 +960,36 @@ func checkFilterChainsRunToTheEnd(w *World, r *Report, rule string) {
 		}
 	}
 	r.floor("loops applying a filter chain", n, 1)
+}
+
+// checkDataNumbersAreDecimal — R19.8: text that holds a number is read in base ten.  On render
+// paths no strconv.ParseInt / ParseUint call has the constant base 0: base 0 reads a leading 0 as
+// octal and 0x / 0b prefixes as other bases, so `'010'|abs` is 8 and `'0755'|number_format` is 493,
+// while the same text is 10 and 755 wherever it goes through ParseFloat.
+func checkDataNumbersAreDecimal(w *World, r *Report) {
+	reach := w.renderReachable()
+	n := 0
+	for _, fn := range w.pkgFuncs() {
+		if !reach[fn] {
+			continue
+		}
+		instrsOf(fn, func(in ssa.Instruction) {
+			c, ok := in.(*ssa.Call)
+			if !ok {
+				return
+			}
+			g := c.Call.StaticCallee()
+			if g == nil || (g.String() != "strconv.ParseInt" && g.String() != "strconv.ParseUint") || len(c.Call.Args) < 2 {
+				return
+			}
+			n++
+			construct := "integer text parsed in a fixed base"
+			if k, ok := c.Call.Args[1].(*ssa.Const); ok && k.Value != nil && k.Int64() == 0 {
+				r.bad("R19.8", ssaName(fn), construct, w.posOf(in.Pos()), "base 0 lets the text choose the base: a zero-padded decimal string is read as octal and 0x… as hexadecimal, so the filter's result for a numeric string depends on how the digits are padded")
+			} else {
+				r.ok("R19.8", ssaName(fn), construct, w.posOf(in.Pos()), "the base is not 0", false)
+			}
+		})
+	}
+	r.Counts["strconv integer parses on render paths"] = n
 }
